@@ -461,3 +461,27 @@ func execBW(f []string) vlib.Res {
 	}
 	return vlib.Res{Impl: impl, Oracle: or, Tags: "nt"}
 }
+
+// execTCPClass: tcpclass <len> — the admission-token class (tcpEngine.tokens) and the slab class (largeClass) of a frame length.
+func execTCPClass(f []string) vlib.Res {
+	if len(f) == 2 && f[1] == "new" {
+		return vlib.Res{Impl: "ok"}
+	}
+	if len(f) != 2 {
+		return vlib.Res{Impl: "bad-op"}
+	}
+	tl, sl := server.VerifC11TCPClass(vlib.Atoi(f[1]))
+	or := "ok"
+	if tl != sl {
+		or = fmt.Sprintf("FAIL sig=tcpclass/token-and-slab-class-disagree len=%s token-large=%v slab-large=%v", f[1], tl, sl)
+	}
+	return vlib.Res{Impl: fmt.Sprintf("token=%s slab=%s", map[bool]string{true: "large", false: "small"}[tl], map[bool]string{true: "large", false: "small"}[sl]), Oracle: or, Tags: "nt"}
+}
+
+func tcpClassFacts() (mismatches []int, smallFrame int) {
+	bad, sf := server.VerifC11TCPClassMismatches()
+	if bad == nil {
+		bad = []int{}
+	}
+	return bad, sf
+}
